@@ -99,6 +99,13 @@ func (h *fileHistory) Write(s string) (int, error) {
 		return 0, fmt.Errorf("%w: %s", errOpenHistoryFile, err.Error())
 	}
 
+	if cut, verr := verifFileFault(len(data) + 1); verr != nil {
+		f.Write(append(data, '\n')[:cut])
+		f.Close()
+
+		return h.Len(), verr
+	}
+
 	_, err = f.Write(append(data, '\n'))
 	f.Close()
 
